@@ -113,7 +113,7 @@ verif_harness! {
     }
 }
 
-//@ harness name=tf_leaf_rs prop=C08,C20 tier=quick bits=64 est=15 desc="L: rs_mult(m) == RS matrix times m over GF(2^8)/0x14D for all 2^64 m"
+//@ harness name=tf_leaf_rs prop=C08,C20 tier=quick bits=64 est=20 desc="L: rs_mult(m) == RS matrix times m over GF(2^8)/0x14D for all 2^64 m"
 verif_harness! {
     name: tf_leaf_rs,
     bytes: 8,
@@ -126,7 +126,7 @@ verif_harness! {
     }
 }
 
-//@ harness name=tf_leaf_h prop=C08,C20 tier=quick bits=291 est=35 desc="L: h(x, key[..8k], k, offset) == the paper's h(X, M_e) (offset 0) / h(X, M_o) (offset 1) for k in {2,3,4} (symbolic), every x, every key"
+//@ harness name=tf_leaf_h prop=C08,C20 tier=quick bits=291 est=25 desc="L: h(x, key[..8k], k, offset) == the paper's h(X, M_e) (offset 0) / h(X, M_o) (offset 1) for k in {2,3,4} (symbolic), every x, every key"
 verif_harness! {
     name: tf_leaf_h,
     bytes: 38,
@@ -188,7 +188,7 @@ verif_harness! {
     prop: |inp| { g_prop(inp, 1) }
 }
 
-//@ harness name=tf_leaf_g_k4 prop=C08,C20 tier=quick bits=160 est=20 desc="L: Twofish::g_func(x) with start = 0 (256-bit keys) == h(X, (S_3, S_2, S_1, S_0)) for every s and every x"
+//@ harness name=tf_leaf_g_k4 prop=C08,C20 tier=quick bits=160 est=25 desc="L: Twofish::g_func(x) with start = 0 (256-bit keys) == h(X, (S_3, S_2, S_1, S_0)) for every s and every x"
 verif_harness! {
     name: tf_leaf_g_k4,
     bytes: 20,
@@ -226,7 +226,7 @@ fn ks_prop<const KB: usize>(inp: &[u8; KB]) -> Option<bool> {
     Some(c.start == 4 - kk)
 }
 
-//@ harness name=tf_key_schedule_128 prop=C08,C20 tier=quick bits=128 stub=1 est=105 need=6 desc="W: Twofish::new_from_slice(16-byte key): 40 subkeys == A_i/B_i/PHT/rotations of the paper with rho = 0x01010101, S-box key == RS times key, start == 2; h uninterpreted (shared), every key"
+//@ harness name=tf_key_schedule_128 prop=C08,C20 tier=quick bits=128 stub=1 est=100 need=6 desc="W: Twofish::new_from_slice(16-byte key): 40 subkeys == A_i/B_i/PHT/rotations of the paper with rho = 0x01010101, S-box key == RS times key, start == 2; h uninterpreted (shared), every key"
 verif_harness! {
     name: tf_key_schedule_128,
     bytes: 16,
@@ -235,7 +235,7 @@ verif_harness! {
     prop: |inp| { ks_prop::<16>(inp) }
 }
 
-//@ harness name=tf_key_schedule_192 prop=C08,C20 tier=quick bits=192 stub=1 est=205 need=6 desc="W: Twofish::new_from_slice(24-byte key): subkeys, S-box key, start == 1 vs the paper; h uninterpreted (shared), every key"
+//@ harness name=tf_key_schedule_192 prop=C08,C20 tier=quick bits=192 stub=1 est=170 need=6 desc="W: Twofish::new_from_slice(24-byte key): subkeys, S-box key, start == 1 vs the paper; h uninterpreted (shared), every key"
 verif_harness! {
     name: tf_key_schedule_192,
     bytes: 24,
@@ -244,7 +244,7 @@ verif_harness! {
     prop: |inp| { ks_prop::<24>(inp) }
 }
 
-//@ harness name=tf_key_schedule_256 prop=C08,C20 tier=quick bits=256 stub=1 est=225 need=7 desc="W: Twofish::new_from_slice(32-byte key): subkeys, S-box key, start == 0 vs the paper; h uninterpreted (shared), every key"
+//@ harness name=tf_key_schedule_256 prop=C08,C20 tier=quick bits=256 stub=1 est=195 need=7 desc="W: Twofish::new_from_slice(32-byte key): subkeys, S-box key, start == 0 vs the paper; h uninterpreted (shared), every key"
 verif_harness! {
     name: tf_key_schedule_256,
     bytes: 32,
@@ -253,7 +253,7 @@ verif_harness! {
     prop: |inp| { ks_prop::<32>(inp) }
 }
 
-//@ harness name=tf_wire_enc prop=C08,C20 tier=quick bits=1546 stub=1 est=115 desc="W: encrypt_block on an arbitrary (s, k[40], start<=2) state, every block == the paper's whitening + 16 rounds (F, PHT, 1-bit rotations, swap) + output whitening; g_func uninterpreted (shared)"
+//@ harness name=tf_wire_enc prop=C08,C20 tier=quick bits=1546 stub=1 est=125 desc="W: encrypt_block on an arbitrary (s, k[40], start<=2) state, every block == the paper's whitening + 16 rounds (F, PHT, 1-bit rotations, swap) + output whitening; g_func uninterpreted (shared)"
 verif_harness! {
     name: tf_wire_enc,
     bytes: 193,
@@ -281,7 +281,7 @@ verif_harness! {
     }
 }
 
-//@ harness name=tf_roundtrip_ed prop=C01 tier=quick bits=1546 stub=1 est=85 desc="W: decrypt(encrypt(b)) == b on an arbitrary (s, k[40], start<=2) state (superset of all keys of the three lengths), every block; g_func uninterpreted (any function works for a Feistel network)"
+//@ harness name=tf_roundtrip_ed prop=C01 tier=quick bits=1546 stub=1 est=95 desc="W: decrypt(encrypt(b)) == b on an arbitrary (s, k[40], start<=2) state (superset of all keys of the three lengths), every block; g_func uninterpreted (any function works for a Feistel network)"
 verif_harness! {
     name: tf_roundtrip_ed,
     bytes: 193,
@@ -296,7 +296,7 @@ verif_harness! {
     }
 }
 
-//@ harness name=tf_roundtrip_de prop=C01 tier=quick bits=1546 stub=1 est=80 desc="W: encrypt(decrypt(b)) == b on an arbitrary (s, k[40], start<=2) state, every block; g_func uninterpreted"
+//@ harness name=tf_roundtrip_de prop=C01 tier=quick bits=1546 stub=1 est=95 desc="W: encrypt(decrypt(b)) == b on an arbitrary (s, k[40], start<=2) state, every block; g_func uninterpreted"
 verif_harness! {
     name: tf_roundtrip_de,
     bytes: 193,
